@@ -46,6 +46,15 @@ def encodeNestedSites : List (String × Bool) := [("MarshalMapEntry", true), ("M
 /-- every `DecodeBytes` use of the snippets: (define, copied | subdecoder | aliased) -/
 def decodeBytesSites : List (String × String) := [("UnmarshalBytes", "copied"), ("UnmarshalMapEntry", "subdecoder"), ("UnmarshalMapEntry", "copied"), ("UnmarshalOneOf", "copied"), ("UnmarshalRepeatedExtension", "copied"), ("UnmarshalExtension", "copied")]
 
+/-- (template, Size() sizes the extensions by `range getExtensions` over `SizeOfExtension`, MarshalTo writes them by `range getExtensions` over `MarshalExtension`): declaration order, fixed at generation time -/
+def extensionLoops : List (String × Bool × Bool) := [("singlefile.go.tmpl", true, true), ("permessage.go.tmpl", true, true)]
+
+/-- mentions, in the three templates, of the runtime calls that enumerate populated extensions in Go-map order (RangeExtensions, ExtensionDescs) -/
+def runtimeOrderedIteration : Nat := 0
+
+/-- (template, Unmarshal gets its decoder from exactly one `csproto.NewDecoder(p)`, every `SetMode(` of the template is `dec.SetMode(csproto.DecoderModeFast)` under `{{if $useUnsafeDecoder}}`) -/
+def decoderSetup : List (String × Bool × Bool) := [("singlefile.go.tmpl", true, true), ("permessage.go.tmpl", true, true)]
+
 /-- mentions of the runtime's size-cache fields / sync/atomic in the two file templates -/
 def sizeCacheMentions : Nat := 0
 
